@@ -135,6 +135,16 @@ func cmdCheck(args []string) {
 	solv := NewSolvers(time.Duration(timeout)*time.Second, false)
 	defer solv.Close()
 
+	if kf, err := loadKnownFindings(filepath.Join(*verif, "known_findings.txt")); err == nil {
+		KnownFailing = func(name string) bool {
+			for _, k := range kf {
+				if k.Kind == "finding" && k.Property == *prop && k.re != nil && k.re.MatchString(name) {
+					return true
+				}
+			}
+			return false
+		}
+	}
 	keys := P.keysForProperty(*prop)
 	results := P.VerifyAll(keys, VerifyOpts{MaxRank: maxRank, Thorough: *tier == "thorough"}, solv)
 	lemmaRes := P.VerifyLemmas(*prop, maxRank, solv)
